@@ -4,5 +4,6 @@ CONSTANTS
   MaxLen = 3
 SPECIFICATION Spec
 INVARIANT EmitHistory
+INVARIANT BadIsRefused
 CONSTRAINT GenBound
 CHECK_DEADLOCK FALSE
